@@ -13,11 +13,21 @@ class UfuncSite:
         if not call.args:
             raise AnalysisError(f"apply_ufunc without positional kernel in {fi.qualname}")
         self.kernel_expr = call.args[0]
-        self.args = call.args[1:]
+        # arguments / core dimensions given as columns of a local table of (argument, core dims) pairs are expanded
+        from .astutil import expand_table_comprehension
+        args = []
+        for a in call.args[1:]:
+            col = expand_table_comprehension(fi.node, a.value) if isinstance(a, ast.Starred) else None
+            args += col if col is not None else [a]
+        self.args = args
         self.line = call.lineno
         env = None
         c = lambda e: repo.const(self.module, e, env) if e is not None else UNKNOWN
-        self.input_core_dims = c(kwarg(call, "input_core_dims"))
+        icd = kwarg(call, "input_core_dims")
+        col = expand_table_comprehension(fi.node, icd) if icd is not None else None
+        if col is not None:
+            icd = ast.copy_location(ast.List(elts=col, ctx=ast.Load()), icd)
+        self.input_core_dims = c(icd)
         self.output_core_dims = c(kwarg(call, "output_core_dims"))
         self.vectorize = c(kwarg(call, "vectorize")) if kwarg(call, "vectorize") is not None else False
         self.dask = c(kwarg(call, "dask")) if kwarg(call, "dask") is not None else "forbidden"
